@@ -156,6 +156,8 @@ def run_property(pid, tier, seed):
         "pins": pins,
         "correspondence": ctx.stats,
         "evaluations": ctx.evaluations,
+        "programs": ctx.evaluations,
+        "disagreements_checked": sum(s["disagreements"] for s in ctx.stats.values()),
         "distinct_nontrivial": nontriv,
         "rule": getattr(mod, "RULE", ""),
         "samples": ctx.samples or ["(no correspondence lines were run)"],
